@@ -1,11 +1,13 @@
 package main
 
-// Minimal LLVM-IR (clang-14 -O1 textual) front end for leaf C kernels.
-// Shares terms / solver / explorer with the Go SSA executor.
+// LLVM-IR (clang-14 -O1, textual, one llvm-link'ed module) front end for the C
+// implementation in /repo/c.  Shares terms / solver / explorer with the Go SSA
+// executor.  The module is parsed and every instruction decoded once per
+// engine; memory, globals and frames live in the per-path Machine.
 
 import (
 	"fmt"
-	"go/token"
+	"math"
 	"os"
 	"regexp"
 	"strconv"
@@ -15,28 +17,88 @@ import (
 // ---------- types ----------
 
 type LType struct {
-	kind   string // "int","ptr","array","struct","void"
+	kind   string // "int","ptr","array","struct","void","float"
 	bits   int
 	elem   *LType
 	n      int
 	fields []*LType
 	name   string
+	packed bool
 }
 
 type LModule struct {
 	structs map[string]*LType
 	funcs   map[string]*LFunc
+	decls   map[string]bool
+	globals map[string]*LGlobal
+	tcache  map[string]ltypeRest
+}
+
+type ltypeRest struct {
+	t    *LType
+	used int
+}
+
+type LGlobal struct {
+	name string
+	typ  *LType
+	init lopnd
+	ext  bool
+}
+
+const (
+	kReg = iota
+	kInt
+	kNull
+	kUndef
+	kZero
+	kStr
+	kAgg
+	kSym // @name (+off): global object or function
+	kFloat
+	kUnsup
+)
+
+type lopnd struct {
+	kind int
+	reg  int
+	c    uint64
+	bits int
+	str  []byte
+	agg  []lopnd
+	aggT []*LType
+	sym  string
+	off  int
+	f    float64
+	text string
+}
+
+type lphi struct {
+	blk string
+	v   lopnd
 }
 
 type LInstr struct {
-	res  string
-	op   string
-	text string
+	res   int // register index or -1
+	op    string
+	text  string
+	t, t2 *LType
+	a     []lopnd
+	at    []*LType // types of a (calls, gep indices)
+	byval []int    // per call argument: size to copy (0 = not byval)
+	pred  string
+	lbl   []string
+	cases []uint64
+	phi   []lphi
+	idx   []int
+	callee string
+	line  int
 }
 
 type LBlock struct {
 	name   string
-	instrs []LInstr
+	instrs []*LInstr
+	nphi   int
 }
 
 type LFunc struct {
@@ -44,16 +106,24 @@ type LFunc struct {
 	params []struct {
 		typ  *LType
 		name string
+		reg  int
 	}
 	ret    *LType
 	blocks []*LBlock
 	bidx   map[string]int
+	regs   map[string]int
+	raw    [][]string // undecoded block bodies (decoded lazily, once)
+	rawLn  [][]int
+	mod    *LModule
+	done   bool
 }
 
 func (t *LType) size() int {
 	switch t.kind {
 	case "int":
 		return (t.bits + 7) / 8
+	case "float":
+		return t.bits / 8
 	case "ptr":
 		return 8
 	case "array":
@@ -63,6 +133,9 @@ func (t *LType) size() int {
 		al := 1
 		for _, f := range t.fields {
 			a := f.align()
+			if t.packed {
+				a = 1
+			}
 			if a > al {
 				al = a
 			}
@@ -77,12 +150,22 @@ func (t *LType) size() int {
 func (t *LType) align() int {
 	switch t.kind {
 	case "int":
-		return (t.bits + 7) / 8
+		n := (t.bits + 7) / 8
+		a := 1
+		for a < n && a < 8 {
+			a *= 2
+		}
+		return a
+	case "float":
+		return t.bits / 8
 	case "ptr":
 		return 8
 	case "array":
 		return t.elem.align()
 	case "struct":
+		if t.packed {
+			return 1
+		}
 		al := 1
 		for _, f := range t.fields {
 			if a := f.align(); a > al {
@@ -98,6 +181,9 @@ func (t *LType) fieldOff(i int) int {
 	off := 0
 	for k, f := range t.fields {
 		a := f.align()
+		if t.packed {
+			a = 1
+		}
 		off = (off + a - 1) / a * a
 		if k == i {
 			return off
@@ -107,6 +193,8 @@ func (t *LType) fieldOff(i int) int {
 	panic("field index")
 }
 
+var reArr = regexp.MustCompile(`^\[(\d+) x `)
+
 // parseType parses a type at the start of s and returns the rest.
 func (mod *LModule) parseType(s string) (*LType, string) {
 	s = strings.TrimLeft(s, " ")
@@ -114,7 +202,13 @@ func (mod *LModule) parseType(s string) (*LType, string) {
 	switch {
 	case strings.HasPrefix(s, "void"):
 		t, s = &LType{kind: "void"}, s[4:]
-	case s[0] == 'i' && s[1] >= '0' && s[1] <= '9':
+	case strings.HasPrefix(s, "double"):
+		t, s = &LType{kind: "float", bits: 64}, s[6:]
+	case strings.HasPrefix(s, "float"):
+		t, s = &LType{kind: "float", bits: 32}, s[5:]
+	case strings.HasPrefix(s, "..."):
+		t, s = &LType{kind: "void"}, s[3:]
+	case len(s) > 1 && s[0] == 'i' && s[1] >= '0' && s[1] <= '9':
 		j := 1
 		for j < len(s) && s[j] >= '0' && s[j] <= '9' {
 			j++
@@ -122,13 +216,20 @@ func (mod *LModule) parseType(s string) (*LType, string) {
 		b, _ := strconv.Atoi(s[1:j])
 		t, s = &LType{kind: "int", bits: b}, s[j:]
 	case s[0] == '[':
-		m := regexp.MustCompile(`^\[(\d+) x `).FindStringSubmatch(s)
+		m := reArr.FindStringSubmatch(s)
+		if m == nil {
+			panic("parseType: " + s)
+		}
 		n, _ := strconv.Atoi(m[1])
 		el, rest := mod.parseType(s[len(m[0]):])
 		rest = strings.TrimLeft(rest, " ")
 		t, s = &LType{kind: "array", n: n, elem: el}, rest[1:] // skip ]
-	case s[0] == '{':
+	case s[0] == '{' || strings.HasPrefix(s, "<{"):
 		t = &LType{kind: "struct"}
+		if s[0] == '<' {
+			t.packed = true
+			s = s[1:]
+		}
 		s = s[1:]
 		for {
 			s = strings.TrimLeft(s, " ,")
@@ -140,10 +241,17 @@ func (mod *LModule) parseType(s string) (*LType, string) {
 			f, s = mod.parseType(s)
 			t.fields = append(t.fields, f)
 		}
+		if t.packed {
+			s = strings.TrimPrefix(s, ">")
+		}
 	case s[0] == '%':
 		j := 1
-		for j < len(s) && (s[j] == '.' || s[j] == '_' || (s[j] >= 'a' && s[j] <= 'z') || (s[j] >= 'A' && s[j] <= 'Z') || (s[j] >= '0' && s[j] <= '9')) {
-			j++
+		if j < len(s) && s[j] == '"' {
+			j = 2 + strings.IndexByte(s[2:], '"') + 1
+		} else {
+			for j < len(s) && (s[j] == '.' || s[j] == '_' || (s[j] >= 'a' && s[j] <= 'z') || (s[j] >= 'A' && s[j] <= 'Z') || (s[j] >= '0' && s[j] <= '9')) {
+				j++
+			}
 		}
 		nm := s[:j]
 		st, ok := mod.structs[nm]
@@ -175,7 +283,7 @@ func (mod *LModule) parseType(s string) (*LType, string) {
 					}
 				}
 			}
-			t = &LType{kind: "void"}
+			t = &LType{kind: "void", name: "fn"}
 			s = s2[j+1:]
 			continue
 		}
@@ -184,14 +292,44 @@ func (mod *LModule) parseType(s string) (*LType, string) {
 	return t, s
 }
 
-var attrWords = map[string]bool{"noundef": true, "nocapture": true, "readonly": true, "writeonly": true, "nonnull": true, "noalias": true, "signext": true, "zeroext": true, "immarg": true, "readnone": true, "returned": true}
+var attrWords = []string{"noundef", "nocapture", "readonly", "writeonly", "nonnull", "noalias", "signext", "zeroext", "immarg", "readnone", "returned", "nofree", "inreg"}
+var reAttrParen = regexp.MustCompile(`^(align \d+|dereferenceable\(\d+\)|dereferenceable_or_null\(\d+\)|byval\([^)]*\)|sret\([^)]*\))\s*`)
 
-// splitTop splits at commas that are not nested in brackets.
+func stripAttrs(s string) string {
+	for {
+		s = strings.TrimLeft(s, " ")
+		progressed := false
+		for _, w := range attrWords {
+			if strings.HasPrefix(s, w+" ") {
+				s = s[len(w)+1:]
+				progressed = true
+			}
+		}
+		if m := reAttrParen.FindString(s); m != "" {
+			s = s[len(m):]
+			progressed = true
+		}
+		if !progressed {
+			return s
+		}
+	}
+}
+
+// splitTop splits at commas that are not nested in brackets or string literals.
 func splitTop(s string) []string {
 	var out []string
 	depth, start := 0, 0
+	inStr := false
 	for i := 0; i < len(s); i++ {
+		if inStr {
+			if s[i] == '"' {
+				inStr = false
+			}
+			continue
+		}
 		switch s[i] {
+		case '"':
+			inStr = true
 		case '(', '[', '{', '<':
 			depth++
 		case ')', ']', '}', '>':
@@ -206,34 +344,245 @@ func splitTop(s string) []string {
 	return append(out, s[start:])
 }
 
-func stripAttrs(s string) string {
-	for {
-		s = strings.TrimLeft(s, " ")
-		progressed := false
-		for w := range attrWords {
-			if strings.HasPrefix(s, w+" ") {
-				s = s[len(w)+1:]
-				progressed = true
-			}
-		}
-		if m := regexp.MustCompile(`^(align \d+|dereferenceable\(\d+\)|byval\([^)]*\))\s*`).FindString(s); m != "" {
-			s = s[len(m):]
-			progressed = true
-		}
-		if !progressed {
-			return s
+// ---------- operand / constant parser ----------
+
+type lparser struct {
+	mod *LModule
+	s   string
+	fn  *LFunc
+}
+
+func (p *lparser) skip() { p.s = strings.TrimLeft(p.s, " ") }
+
+func (p *lparser) eat(lit string) bool {
+	p.skip()
+	if strings.HasPrefix(p.s, lit) {
+		p.s = p.s[len(lit):]
+		return true
+	}
+	return false
+}
+
+func (p *lparser) typ() *LType {
+	t, rest := p.mod.parseType(p.s)
+	p.s = rest
+	return t
+}
+
+func (p *lparser) ident() string {
+	j := 0
+	if j < len(p.s) && p.s[j] == '"' {
+		j = 1 + strings.IndexByte(p.s[1:], '"') + 1
+	} else {
+		for j < len(p.s) && (p.s[j] == '.' || p.s[j] == '_' || p.s[j] == '-' || p.s[j] == '$' || (p.s[j] >= 'a' && p.s[j] <= 'z') || (p.s[j] >= 'A' && p.s[j] <= 'Z') || (p.s[j] >= '0' && p.s[j] <= '9')) {
+			j++
 		}
 	}
+	id := p.s[:j]
+	p.s = p.s[j:]
+	return id
 }
+
+func (p *lparser) regOf(name string) int {
+	if p.fn == nil {
+		panic("C: register outside a function: " + name)
+	}
+	r, ok := p.fn.regs[name]
+	if !ok {
+		r = len(p.fn.regs)
+		p.fn.regs[name] = r
+	}
+	return r
+}
+
+// balanced consumes a parenthesised group starting at p.s[0]=='(' and returns its inside.
+func (p *lparser) balanced() string {
+	depth := 0
+	for j := 0; j < len(p.s); j++ {
+		switch p.s[j] {
+		case '(':
+			depth++
+		case ')':
+			depth--
+			if depth == 0 {
+				in := p.s[1:j]
+				p.s = p.s[j+1:]
+				return in
+			}
+		}
+	}
+	panic("C: unbalanced: " + p.s)
+}
+
+func (p *lparser) val(t *LType) lopnd {
+	p.skip()
+	s := p.s
+	switch {
+	case strings.HasPrefix(s, "%"):
+		p.s = s[1:]
+		return lopnd{kind: kReg, reg: p.regOf("%" + p.ident())}
+	case strings.HasPrefix(s, "@"):
+		p.s = s[1:]
+		return lopnd{kind: kSym, sym: p.ident()}
+	case strings.HasPrefix(s, "null"):
+		p.s = s[4:]
+		return lopnd{kind: kNull}
+	case strings.HasPrefix(s, "true"):
+		p.s = s[4:]
+		return lopnd{kind: kInt, c: 1, bits: 1}
+	case strings.HasPrefix(s, "false"):
+		p.s = s[5:]
+		return lopnd{kind: kInt, c: 0, bits: 1}
+	case strings.HasPrefix(s, "undef"), strings.HasPrefix(s, "poison"):
+		if strings.HasPrefix(s, "undef") {
+			p.s = s[5:]
+		} else {
+			p.s = s[6:]
+		}
+		return lopnd{kind: kUndef}
+	case strings.HasPrefix(s, "zeroinitializer"):
+		p.s = s[len("zeroinitializer"):]
+		return lopnd{kind: kZero}
+	case strings.HasPrefix(s, `c"`):
+		j := 2
+		var b []byte
+		for s[j] != '"' {
+			if s[j] == '\\' {
+				v, _ := strconv.ParseUint(s[j+1:j+3], 16, 8)
+				b = append(b, byte(v))
+				j += 3
+			} else {
+				b = append(b, s[j])
+				j++
+			}
+		}
+		p.s = s[j+1:]
+		return lopnd{kind: kStr, str: b}
+	case s[0] == '{' || strings.HasPrefix(s, "<{") || s[0] == '[':
+		closer := byte('}')
+		if s[0] == '[' {
+			closer = ']'
+		}
+		if s[0] == '<' {
+			p.s = s[2:]
+		} else {
+			p.s = s[1:]
+		}
+		o := lopnd{kind: kAgg}
+		for {
+			p.skip()
+			if p.s[0] == closer {
+				p.s = p.s[1:]
+				break
+			}
+			if p.s[0] == ',' {
+				p.s = p.s[1:]
+				continue
+			}
+			et := p.typ()
+			o.aggT = append(o.aggT, et)
+			o.agg = append(o.agg, p.val(et))
+		}
+		if s[0] == '<' {
+			p.eat(">")
+		}
+		return o
+	case strings.HasPrefix(s, "getelementptr"):
+		p.s = strings.TrimPrefix(s, "getelementptr")
+		p.eat("inbounds")
+		p.skip()
+		q := &lparser{mod: p.mod, s: p.balanced(), fn: p.fn}
+		base := q.typ()
+		q.eat(",")
+		pt := q.typ()
+		pv := q.val(pt)
+		if pv.kind != kSym {
+			return lopnd{kind: kUnsup, text: s}
+		}
+		cur := base
+		first := true
+		for q.eat(",") {
+			it := q.typ()
+			iv := q.val(it)
+			if iv.kind != kInt {
+				return lopnd{kind: kUnsup, text: s}
+			}
+			idx := int(sext64(iv.c, it.bits))
+			if first {
+				pv.off += idx * cur.size()
+				first = false
+				continue
+			}
+			switch cur.kind {
+			case "struct":
+				pv.off += cur.fieldOff(idx)
+				cur = cur.fields[idx]
+			case "array":
+				pv.off += idx * cur.elem.size()
+				cur = cur.elem
+			default:
+				return lopnd{kind: kUnsup, text: s}
+			}
+		}
+		return pv
+	case strings.HasPrefix(s, "bitcast"):
+		p.s = strings.TrimPrefix(s, "bitcast")
+		p.skip()
+		q := &lparser{mod: p.mod, s: p.balanced(), fn: p.fn}
+		ft := q.typ()
+		return q.val(ft)
+	case s[0] == '-' || (s[0] >= '0' && s[0] <= '9'):
+		j := 1
+		for j < len(s) && (s[j] == '.' || s[j] == 'e' || s[j] == '+' || s[j] == '-' || s[j] == 'x' || (s[j] >= '0' && s[j] <= '9') || (s[j] >= 'A' && s[j] <= 'F') || (s[j] >= 'a' && s[j] <= 'f')) {
+			j++
+		}
+		tok := s[:j]
+		p.s = s[j:]
+		if t != nil && t.kind == "float" {
+			if strings.HasPrefix(tok, "0x") {
+				u, _ := strconv.ParseUint(tok[2:], 16, 64)
+				return lopnd{kind: kFloat, f: math.Float64frombits(u)}
+			}
+			f, _ := strconv.ParseFloat(tok, 64)
+			return lopnd{kind: kFloat, f: f}
+		}
+		n, err := strconv.ParseInt(tok, 10, 64)
+		if err != nil {
+			u, err2 := strconv.ParseUint(tok, 10, 64)
+			if err2 != nil {
+				panic("C: operand " + tok)
+			}
+			n = int64(u)
+		}
+		bits := 64
+		if t != nil && t.kind == "int" {
+			bits = t.bits
+		}
+		return lopnd{kind: kInt, c: uint64(n) & mask(bits), bits: bits}
+	}
+	// other constant expressions (ptrtoint, sub, trunc ...): only an error if evaluated
+	word := p.ident()
+	p.skip()
+	if strings.HasPrefix(p.s, "(") {
+		p.balanced()
+	}
+	return lopnd{kind: kUnsup, text: word}
+}
+
+// ---------- module parser ----------
+
+var reDefine = regexp.MustCompile(`@([\w.$]+)\((.*)\)[^()]*\{$`)
+var reDeclare = regexp.MustCompile(`@([\w.$]+)\(`)
+var reMeta = regexp.MustCompile(`, ![a-zA-Z.]+ ![0-9]+`)
+var linkWords = []string{"private", "internal", "dso_local", "external", "common", "hidden", "weak", "linkonce_odr", "unnamed_addr", "local_unnamed_addr", "available_externally", "thread_local", "weak_odr", "linkonce", "extern_weak", "dso_preemptable"}
 
 func ParseLL(path string) *LModule {
 	data, err := os.ReadFile(path)
 	if err != nil {
 		panic(err)
 	}
-	mod := &LModule{structs: map[string]*LType{}, funcs: map[string]*LFunc{}}
+	mod := &LModule{structs: map[string]*LType{}, funcs: map[string]*LFunc{}, decls: map[string]bool{}, globals: map[string]*LGlobal{}}
 	lines := strings.Split(string(data), "\n")
-	meta := regexp.MustCompile(`, ![a-zA-Z.]+ ![0-9]+`)
 	for i := 0; i < len(lines); i++ {
 		l := lines[i]
 		if strings.HasPrefix(l, "%") && strings.Contains(l, " = type ") {
@@ -247,41 +596,95 @@ func ParseLL(path string) *LModule {
 				mod.structs[parts[0]] = st
 			}
 			body, _ := mod.parseType(parts[1])
-			st.fields = body.fields
+			st.fields, st.packed = body.fields, body.packed
+			continue
+		}
+		if strings.HasPrefix(l, "@") && strings.Contains(l, " = ") {
+			parts := strings.SplitN(l, " = ", 2)
+			g := &LGlobal{name: parts[0][1:]}
+			rest := parts[1]
+			for {
+				rest = strings.TrimLeft(rest, " ")
+				hit := false
+				for _, w := range linkWords {
+					if strings.HasPrefix(rest, w+" ") {
+						if w == "external" || w == "extern_weak" {
+							g.ext = true
+						}
+						rest = rest[len(w)+1:]
+						hit = true
+					}
+				}
+				if !hit {
+					break
+				}
+			}
+			if strings.HasPrefix(rest, "global ") {
+				rest = rest[7:]
+			} else if strings.HasPrefix(rest, "constant ") {
+				rest = rest[9:]
+			} else {
+				continue // alias etc.
+			}
+			p := &lparser{mod: mod, s: rest}
+			g.typ = p.typ()
+			if !g.ext {
+				g.init = p.val(g.typ)
+			} else {
+				g.init = lopnd{kind: kZero}
+			}
+			mod.globals[g.name] = g
+			continue
+		}
+		if strings.HasPrefix(l, "declare ") {
+			if m := reDeclare.FindStringSubmatch(l); m != nil {
+				mod.decls[m[1]] = true
+			}
 			continue
 		}
 		if strings.HasPrefix(l, "define ") {
-			m := regexp.MustCompile(`@([\w.]+)\((.*)\)[^()]*\{$`).FindStringSubmatch(l)
+			m := reDefine.FindStringSubmatch(l)
 			if m == nil {
 				panic("define: " + l)
 			}
-			f := &LFunc{name: m[1], bidx: map[string]int{}}
+			f := &LFunc{name: m[1], bidx: map[string]int{}, regs: map[string]int{}, mod: mod}
 			hdr := l[len("define "):strings.Index(l, "@")]
-			for _, w := range []string{"dso_local", "internal", "hidden", "noundef", "zeroext", "signext", "nonnull", "fastcc", "noalias", "available_externally", "linkonce_odr"} {
+			for _, w := range []string{"dso_local", "internal", "hidden", "noundef", "zeroext", "signext", "nonnull", "fastcc", "noalias", "available_externally", "linkonce_odr", "private", "weak"} {
 				hdr = strings.ReplaceAll(hdr, w+" ", "")
 			}
+			hdr = stripAttrs(hdr)
 			f.ret, _ = mod.parseType(hdr)
 			ps := m[2]
-			for strings.TrimSpace(ps) != "" {
-				t, rest := mod.parseType(ps)
-				rest = stripAttrs(rest)
-				j := strings.IndexAny(rest, ",")
-				nm := rest
-				if j >= 0 {
-					nm, ps = rest[:j], rest[j+1:]
-				} else {
-					ps = ""
+			pp := &lparser{mod: mod, fn: f}
+			for _, a := range splitTop(ps) {
+				if strings.TrimSpace(a) == "" {
+					continue
+				}
+				t, rest := mod.parseType(a)
+				rest = strings.TrimSpace(stripAttrs(rest))
+				if rest == "" {
+					rest = "%" + strconv.Itoa(len(f.params))
 				}
 				f.params = append(f.params, struct {
 					typ  *LType
 					name string
-				}{t, strings.TrimSpace(nm)})
+					reg  int
+				}{t, rest, pp.regOf(rest)})
 			}
 			// the unnamed entry block is numbered after the (unnamed) parameters
-			cur := &LBlock{name: strconv.Itoa(len(f.params))}
+			cur := strconv.Itoa(len(f.params))
+			var body []string
+			var lns []int
 			first := true
+			flush := func() {
+				f.bidx[cur] = len(f.blocks)
+				f.blocks = append(f.blocks, &LBlock{name: cur})
+				f.raw = append(f.raw, body)
+				f.rawLn = append(f.rawLn, lns)
+				body, lns = nil, nil
+			}
 			for i++; i < len(lines) && lines[i] != "}"; i++ {
-				ln := meta.ReplaceAllString(lines[i], "")
+				ln := reMeta.ReplaceAllString(lines[i], "")
 				if k := strings.Index(ln, " ; preds"); k >= 0 {
 					ln = ln[:k]
 				}
@@ -291,12 +694,11 @@ func ParseLL(path string) *LModule {
 				}
 				if !strings.HasPrefix(ln, " ") && strings.HasSuffix(strings.Fields(ln)[0], ":") {
 					nm := strings.TrimSuffix(strings.Fields(ln)[0], ":")
-					if first && len(cur.instrs) == 0 {
-						cur.name = nm
+					if first && len(body) == 0 {
+						cur = nm
 					} else {
-						f.bidx[cur.name] = len(f.blocks)
-						f.blocks = append(f.blocks, cur)
-						cur = &LBlock{name: nm}
+						flush()
+						cur = nm
 					}
 					first = false
 					continue
@@ -306,32 +708,278 @@ func ParseLL(path string) *LModule {
 				if strings.HasPrefix(ln, "switch ") && !strings.Contains(ln, "]") {
 					for i+1 < len(lines) {
 						i++
-						nx := strings.TrimSpace(meta.ReplaceAllString(lines[i], ""))
+						nx := strings.TrimSpace(reMeta.ReplaceAllString(lines[i], ""))
 						ln += " " + nx
 						if strings.Contains(nx, "]") {
 							break
 						}
 					}
 				}
-				in := LInstr{text: ln}
-				if strings.HasPrefix(ln, "%") && strings.Contains(ln, " = ") {
-					p := strings.SplitN(ln, " = ", 2)
-					in.res, ln = p[0], p[1]
-				}
-				in.op = strings.Fields(ln)[0]
-				if in.op == "tail" || in.op == "notail" || in.op == "musttail" {
-					ln = strings.TrimPrefix(ln, in.op+" ")
-					in.op = "call"
-				}
-				in.text = ln
-				cur.instrs = append(cur.instrs, in)
+				body = append(body, ln)
+				lns = append(lns, i+1)
 			}
-			f.bidx[cur.name] = len(f.blocks)
-			f.blocks = append(f.blocks, cur)
+			flush()
 			mod.funcs[f.name] = f
 		}
 	}
+	// decode everything now: the module is shared read-only by the workers
+	for _, f := range mod.funcs {
+		f.decode()
+	}
 	return mod
+}
+
+var callSkip = []string{"tail ", "notail ", "musttail ", "fastcc ", "ccc ", "noundef ", "zeroext ", "signext ", "nonnull ", "noalias "}
+
+func (f *LFunc) decode() {
+	if f.done {
+		return
+	}
+	f.done = true
+	mod := f.mod
+	for bi, body := range f.raw {
+		b := f.blocks[bi]
+		for li, ln := range body {
+			in := &LInstr{res: -1, text: ln, line: f.rawLn[bi][li]}
+			p := &lparser{mod: mod, fn: f}
+			if strings.HasPrefix(ln, "%") && strings.Contains(ln, " = ") {
+				pr := strings.SplitN(ln, " = ", 2)
+				in.res, ln = p.regOf(pr[0]), pr[1]
+			}
+			in.op = strings.Fields(ln)[0]
+			if in.op == "tail" || in.op == "notail" || in.op == "musttail" {
+				in.op = "call"
+			}
+			p.s = ln
+			func() {
+				defer func() {
+					if r := recover(); r != nil {
+						if _, isEng := r.(engineError); isEng {
+							panic(r)
+						}
+						// undecodable: only an error if executed
+						in.op, in.text = "undecodable", fmt.Sprintf("%s (%v)", in.text, r)
+					}
+				}()
+				f.decodeInstr(in, p)
+			}()
+			if in.op == "phi" {
+				b.nphi++
+			}
+			b.instrs = append(b.instrs, in)
+		}
+	}
+	f.raw, f.rawLn = nil, nil
+}
+
+func (f *LFunc) decodeInstr(in *LInstr, p *lparser) {
+	switch in.op {
+	case "alloca":
+		p.eat("alloca")
+		in.t = p.typ()
+		in.a = []lopnd{{kind: kInt, c: 1, bits: 64}}
+		if p.eat(",") {
+			p.skip()
+			if !strings.HasPrefix(p.s, "align") {
+				ct := p.typ()
+				in.a[0] = p.val(ct)
+			}
+		}
+	case "getelementptr":
+		p.eat("getelementptr")
+		p.eat("inbounds")
+		in.t = p.typ()
+		p.eat(",")
+		pt := p.typ()
+		in.a = append(in.a, p.val(pt))
+		in.at = append(in.at, pt)
+		for p.eat(",") {
+			it := p.typ()
+			in.a = append(in.a, p.val(it))
+			in.at = append(in.at, it)
+		}
+	case "load":
+		p.eat("load")
+		p.eat("volatile")
+		in.t = p.typ()
+		p.eat(",")
+		pt := p.typ()
+		in.a = []lopnd{p.val(pt)}
+	case "store":
+		p.eat("store")
+		p.eat("volatile")
+		in.t = p.typ()
+		v := p.val(in.t)
+		p.eat(",")
+		pt := p.typ()
+		in.a = []lopnd{v, p.val(pt)}
+	case "trunc", "zext", "sext", "bitcast", "ptrtoint", "inttoptr", "uitofp", "sitofp", "fptoui", "fptosi", "fpext", "fptrunc":
+		p.eat(in.op)
+		in.t = p.typ()
+		in.a = []lopnd{p.val(in.t)}
+		p.eat("to")
+		in.t2 = p.typ()
+	case "freeze":
+		p.eat("freeze")
+		in.t = p.typ()
+		in.a = []lopnd{p.val(in.t)}
+	case "add", "sub", "mul", "and", "or", "xor", "shl", "lshr", "ashr", "udiv", "urem", "sdiv", "srem":
+		p.eat(in.op)
+		for p.eat("nuw") || p.eat("nsw") || p.eat("exact") {
+		}
+		in.t = p.typ()
+		x := p.val(in.t)
+		p.eat(",")
+		in.a = []lopnd{x, p.val(in.t)}
+	case "icmp":
+		p.eat("icmp")
+		p.skip()
+		in.pred = p.ident()
+		in.t = p.typ()
+		x := p.val(in.t)
+		p.eat(",")
+		in.a = []lopnd{x, p.val(in.t)}
+	case "select":
+		p.eat("select")
+		ct := p.typ()
+		c := p.val(ct)
+		p.eat(",")
+		in.t = p.typ()
+		x := p.val(in.t)
+		p.eat(",")
+		t2 := p.typ()
+		in.a = []lopnd{c, x, p.val(t2)}
+	case "phi":
+		p.eat("phi")
+		in.t = p.typ()
+		for {
+			if !p.eat("[") {
+				break
+			}
+			v := p.val(in.t)
+			p.eat(",")
+			p.eat("%")
+			blk := p.ident()
+			p.eat("]")
+			in.phi = append(in.phi, lphi{blk, v})
+			if !p.eat(",") {
+				break
+			}
+		}
+	case "br":
+		p.eat("br")
+		if p.eat("label") {
+			p.eat("%")
+			in.lbl = []string{p.ident()}
+		} else {
+			ct := p.typ()
+			in.a = []lopnd{p.val(ct)}
+			p.eat(",")
+			p.eat("label")
+			p.eat("%")
+			l1 := p.ident()
+			p.eat(",")
+			p.eat("label")
+			p.eat("%")
+			in.lbl = []string{l1, p.ident()}
+		}
+	case "switch":
+		p.eat("switch")
+		in.t = p.typ()
+		in.a = []lopnd{p.val(in.t)}
+		p.eat(",")
+		p.eat("label")
+		p.eat("%")
+		in.lbl = []string{p.ident()}
+		p.eat("[")
+		for !p.eat("]") {
+			ct := p.typ()
+			cv := p.val(ct)
+			p.eat(",")
+			p.eat("label")
+			p.eat("%")
+			in.cases = append(in.cases, cv.c)
+			in.lbl = append(in.lbl, p.ident())
+		}
+	case "ret":
+		p.eat("ret")
+		in.t = p.typ()
+		if in.t.kind != "void" || in.t.name == "fn" {
+			in.a = []lopnd{p.val(in.t)}
+		}
+	case "call":
+		for {
+			p.skip()
+			hit := false
+			if strings.HasPrefix(p.s, "call ") {
+				p.s = p.s[5:]
+				hit = true
+			}
+			for _, w := range callSkip {
+				if strings.HasPrefix(p.s, w) {
+					p.s = p.s[len(w):]
+					hit = true
+				}
+			}
+			if m := reAttrParen.FindString(p.s); m != "" {
+				p.s = p.s[len(m):]
+				hit = true
+			}
+			if !hit {
+				break
+			}
+		}
+		in.t = p.typ()
+		p.skip()
+		if strings.HasPrefix(p.s, "@") {
+			p.s = p.s[1:]
+			in.callee = p.ident()
+		} else {
+			in.a = append(in.a, p.val(nil))
+			in.at = append(in.at, nil)
+			in.byval = append(in.byval, 0)
+		}
+		p.skip()
+		for _, a := range splitTop(p.balanced()) {
+			if strings.TrimSpace(a) == "" {
+				continue
+			}
+			q := &lparser{mod: p.mod, fn: f, s: a}
+			at := q.typ()
+			bv := 0
+			if strings.Contains(q.s, "byval(") && at.kind == "ptr" {
+				bv = at.elem.size()
+			}
+			q.s = stripAttrs(q.s)
+			in.a = append(in.a, q.val(at))
+			in.at = append(in.at, at)
+			in.byval = append(in.byval, bv)
+		}
+	case "extractvalue":
+		p.eat("extractvalue")
+		in.t = p.typ()
+		in.a = []lopnd{p.val(in.t)}
+		for p.eat(",") {
+			p.skip()
+			n, _ := strconv.Atoi(p.ident())
+			in.idx = append(in.idx, n)
+		}
+	case "insertvalue":
+		p.eat("insertvalue")
+		in.t = p.typ()
+		agg := p.val(in.t)
+		p.eat(",")
+		in.t2 = p.typ()
+		in.a = []lopnd{agg, p.val(in.t2)}
+		for p.eat(",") {
+			p.skip()
+			n, _ := strconv.Atoi(p.ident())
+			in.idx = append(in.idx, n)
+		}
+	case "unreachable":
+	default:
+		in.op = "undecodable"
+	}
 }
 
 // ---------- memory ----------
@@ -341,10 +989,11 @@ type LObj struct {
 	cells map[int]lcell
 	size  int
 	freed bool
+	what  string
 }
 
 type lcell struct {
-	v    interface{} // Int or LPtr
+	v    interface{} // Int, LPtr or LFn
 	size int
 }
 
@@ -353,24 +1002,75 @@ type LPtr struct {
 	off int
 }
 
-func newObj(size int) *LObj {
-	return &LObj{cells: map[int]lcell{}, size: size}
+type LFn struct{ name string }
+
+type LAgg []interface{}
+
+type LF64 float64
+
+const cObjShift = 26
+
+// cAlloc creates a fresh C object with its own pseudo address range.
+func (m *Machine) cAlloc(n int) *LObj {
+	o := &LObj{base: (len(m.cobjs) + 1) << cObjShift, cells: map[int]lcell{}, size: n}
+	m.cobjs = append(m.cobjs, o)
+	return o
+}
+
+func (m *Machine) cZero(o *LObj, off, n int) {
+	z := cInt(0, 8, false)
+	for k := off; k < off+n; k++ {
+		o.cells[k] = lcell{z, 1}
+	}
 }
 
 func (m *Machine) cpanic(kind, msg string) {
-	panic(targetPanic{kind: kind, msg: "C: " + msg, fn: "C:" + m.cfn, pos: "c/record.c"})
+	panic(targetPanic{kind: "cfault", msg: "C (" + kind + "): " + msg, fn: "C:" + m.cfn, pos: "c"})
+}
+
+func (m *Machine) ccheck(p LPtr, size int, what string) {
+	if p.obj == nil {
+		m.cpanic("nil", what+" through NULL")
+	}
+	if p.obj.freed {
+		m.cpanic("uaf", what+" of freed memory ("+p.obj.what+")")
+	}
+	if p.off < 0 || p.off+size > p.obj.size {
+		m.cpanic("index", fmt.Sprintf("out-of-bounds %s (off %d size %d, obj size %d %s)", what, p.off, size, p.obj.size, p.obj.what))
+	}
+}
+
+// clearRange removes cells overlapping [off, off+size), splitting wider integer cells.
+func (m *Machine) clearRange(o *LObj, off, size int) {
+	for k := off - 7; k < off+size; k++ {
+		c, ok := o.cells[k]
+		if !ok || k+c.size <= off {
+			continue
+		}
+		if k >= off && k+c.size <= off+size {
+			delete(o.cells, k)
+			continue
+		}
+		// partial overlap: split an integer cell into bytes, drop pointers
+		delete(o.cells, k)
+		if iv, isInt := c.v.(Int); isInt {
+			for b := 0; b < c.size; b++ {
+				if k+b >= off && k+b < off+size {
+					continue
+				}
+				if iv.t == nil {
+					o.cells[k+b] = lcell{cInt(iv.c>>(8*uint(b)), 8, false), 1}
+				} else {
+					o.cells[k+b] = lcell{m.mk(m.ctx.Extract(iv.t, 8*b+7, 8*b), false), 1}
+				}
+			}
+		}
+	}
 }
 
 func (m *Machine) lstore(p LPtr, v interface{}, size int) {
-	if p.obj == nil {
-		m.cpanic("nil", "store through NULL")
-	}
-	if p.off < 0 || p.off+size > p.obj.size {
-		m.cpanic("index", fmt.Sprintf("out-of-bounds store (off %d size %d, obj size %d)", p.off, size, p.obj.size))
-	}
-	for k := p.off; k < p.off+size; k++ {
-		delete(p.obj.cells, k)
-	}
+	m.ccheck(p, size, "store")
+	m.clearRange(p.obj, p.off, size)
 	if iv, ok := v.(Int); ok && size > 1 { // split into bytes, little endian
 		for k := 0; k < size; k++ {
 			if iv.t == nil {
@@ -381,31 +1081,56 @@ func (m *Machine) lstore(p LPtr, v interface{}, size int) {
 		}
 		return
 	}
+	if lp, ok := v.(LPtr); ok && lp.obj == nil && size == 8 {
+		m.cZero(p.obj, p.off, 8) // NULL is all-zero bytes
+		return
+	}
 	p.obj.cells[p.off] = lcell{v, size}
 }
 
 func (m *Machine) lload(p LPtr, size int, wantPtr bool) interface{} {
-	if p.obj == nil {
-		m.cpanic("nil", "load through NULL")
-	}
-	if p.off < 0 || p.off+size > p.obj.size {
-		m.cpanic("index", fmt.Sprintf("out-of-bounds load (off %d size %d, obj size %d)", p.off, size, p.obj.size))
-	}
+	m.ccheck(p, size, "load")
 	if c, ok := p.obj.cells[p.off]; ok && c.size == size {
-		return c.v
-	}
-	if wantPtr {
-		panic("C: pointer load from non-pointer cell")
+		if _, isInt := c.v.(Int); !(wantPtr && isInt) {
+			return c.v
+		}
 	}
 	var t *Term
+	allZero := true
 	for k := size - 1; k >= 0; k-- {
 		c, ok := p.obj.cells[p.off+k]
-		if !ok || c.size != 1 {
-			m.cpanic("index", "read of uninitialised memory")
+		if ok && c.size != 1 {
+			if iv, isInt := c.v.(Int); isInt { // a wider integer cell: split it
+				m.clearRange(p.obj, p.off+k, 0)
+				_ = iv
+				delete(p.obj.cells, p.off+k)
+				for b := 0; b < c.size; b++ {
+					if iv.t == nil {
+						p.obj.cells[p.off+k+b] = lcell{cInt(iv.c>>(8*uint(b)), 8, false), 1}
+					} else {
+						p.obj.cells[p.off+k+b] = lcell{m.mk(m.ctx.Extract(iv.t, 8*b+7, 8*b), false), 1}
+					}
+				}
+				c = p.obj.cells[p.off+k]
+			} else {
+				m.cpanic("index", "integer load overlapping a pointer cell")
+			}
+		}
+		if !ok {
+			if m.coversPtr(p.obj, p.off+k) {
+				m.cpanic("index", "integer load overlapping a pointer cell")
+			}
+			// uninitialised memory: an arbitrary byte (fixed from now on)
+			m.cuninit++
+			c = lcell{Int{t: m.ctx.Var(fmt.Sprintf("c_uninit_%d", m.cuninit), 8), w: 8}, 1}
+			p.obj.cells[p.off+k] = c
 		}
 		bi, isInt := c.v.(Int)
 		if !isInt {
 			m.cpanic("index", "integer load from a pointer cell")
+		}
+		if bi.t != nil || bi.c != 0 {
+			allZero = false
 		}
 		b := m.term(bi)
 		if t == nil {
@@ -414,55 +1139,216 @@ func (m *Machine) lload(p LPtr, size int, wantPtr bool) interface{} {
 			t = m.ctx.Concat(t, b)
 		}
 	}
+	if wantPtr {
+		if allZero {
+			return LPtr{}
+		}
+		v := m.mk(t, false)
+		if v.t != nil {
+			unsupported("C: pointer loaded from symbolic bytes")
+		}
+		return m.ptrOfInt(v.c)
+	}
 	return m.mk(t, false)
+}
+
+func (m *Machine) coversPtr(o *LObj, off int) bool {
+	for k := off - 7; k < off; k++ {
+		if c, ok := o.cells[k]; ok && k+c.size > off {
+			return true
+		}
+	}
+	return false
+}
+
+func (m *Machine) ptrOfInt(a uint64) LPtr {
+	if a == 0 {
+		return LPtr{}
+	}
+	i := int(a>>cObjShift) - 1
+	if i < 0 || i >= len(m.cobjs) {
+		unsupported("C: integer %#x converted to a pointer", a)
+	}
+	return LPtr{m.cobjs[i], int(a & (1<<cObjShift - 1))}
+}
+
+func (m *Machine) intOfPtr(v interface{}, bits int) Int {
+	switch pv := v.(type) {
+	case LPtr:
+		if pv.obj == nil {
+			return cInt(0, bits, false)
+		}
+		return cInt(uint64(pv.obj.base+pv.off), bits, false)
+	case LFn:
+		return cInt(uint64(len(pv.name))<<40|1<<60, bits, false)
+	}
+	return v.(Int)
+}
+
+// cmemcpy copies n bytes cell by cell (pointers stay pointers).
+func (m *Machine) cmemcpy(d, s LPtr, n int) {
+	if n == 0 {
+		return
+	}
+	m.ccheck(d, n, "memcpy store")
+	m.ccheck(s, n, "memcpy load")
+	type ent struct {
+		k int
+		c lcell
+	}
+	var ents []ent
+	for k := 0; k < n; {
+		c, ok := s.obj.cells[s.off+k]
+		if !ok {
+			if m.coversPtr(s.obj, s.off+k) {
+				// inside a wider cell: read the byte
+				ents = append(ents, ent{k, lcell{m.lload(LPtr{s.obj, s.off + k}, 1, false), 1}})
+			}
+			k++
+			continue
+		}
+		if k+c.size <= n {
+			ents = append(ents, ent{k, c})
+			k += c.size
+			continue
+		}
+		if _, isInt := c.v.(Int); isInt {
+			ents = append(ents, ent{k, lcell{m.lload(LPtr{s.obj, s.off + k}, 1, false), 1}})
+		}
+		k++
+	}
+	m.clearRange(d.obj, d.off, n)
+	for _, e := range ents {
+		d.obj.cells[d.off+e.k] = e.c
+	}
+}
+
+// ---------- globals ----------
+
+func (m *Machine) cGlobal(mod *LModule, name string) interface{} {
+	if mod.funcs[name] != nil || mod.decls[name] {
+		return LFn{name}
+	}
+	if o, ok := m.cglobals[name]; ok {
+		return LPtr{o, 0}
+	}
+	g := mod.globals[name]
+	if g == nil {
+		unsupported("C: unknown symbol @%s", name)
+	}
+	if m.cglobals == nil {
+		m.cglobals = map[string]*LObj{}
+	}
+	o := m.cAlloc(g.typ.size())
+	o.what = "@" + name
+	m.cglobals[name] = o
+	m.cInit(mod, o, 0, g.typ, g.init)
+	return LPtr{o, 0}
+}
+
+func (m *Machine) cInit(mod *LModule, o *LObj, off int, t *LType, c lopnd) {
+	switch c.kind {
+	case kZero, kUndef:
+		m.cZero(o, off, t.size())
+	case kNull:
+		m.cZero(o, off, 8)
+	case kInt:
+		m.lstore(LPtr{o, off}, cInt(c.c, t.bits, false), t.size())
+	case kStr:
+		for k, b := range c.str {
+			o.cells[off+k] = lcell{cInt(uint64(b), 8, false), 1}
+		}
+	case kSym:
+		v := m.cGlobal(mod, c.sym)
+		if pv, ok := v.(LPtr); ok {
+			pv.off += c.off
+			v = pv
+		}
+		o.cells[off] = lcell{v, 8}
+	case kAgg:
+		m.cZero(o, off, t.size())
+		for i, e := range c.agg {
+			switch t.kind {
+			case "struct":
+				m.clearRange(o, off+t.fieldOff(i), t.fields[i].size())
+				m.cInit(mod, o, off+t.fieldOff(i), t.fields[i], e)
+			case "array":
+				m.clearRange(o, off+i*t.elem.size(), t.elem.size())
+				m.cInit(mod, o, off+i*t.elem.size(), t.elem, e)
+			}
+		}
+	case kFloat:
+		o.cells[off] = lcell{LF64(c.f), 8}
+	default:
+		// unsupported constant expression: poison bytes (left uninitialised)
+	}
 }
 
 // ---------- executor ----------
 
-var (
-	reOperand = regexp.MustCompile(`^(%[\w.]+|-?\d+|null|true|false|undef)`)
-)
-
 type lframe struct {
-	env  map[string]interface{}
+	env  []interface{}
 	prev string
 }
 
-func (m *Machine) lval(fr *lframe, t *LType, tok string) interface{} {
-	tok = strings.TrimSpace(tok)
-	switch {
-	case strings.HasPrefix(tok, "%"):
-		v, ok := fr.env[tok]
-		if !ok {
-			panic("C: unbound " + tok)
+func (m *Machine) lval(mod *LModule, fr *lframe, t *LType, o lopnd) interface{} {
+	switch o.kind {
+	case kReg:
+		v := fr.env[o.reg]
+		if v == nil {
+			panic("C: unbound register")
 		}
 		return v
-	case tok == "null":
+	case kInt:
+		bits := o.bits
+		if t != nil && t.kind == "int" {
+			bits = t.bits
+		}
+		return cInt(o.c, bits, false)
+	case kNull:
 		return LPtr{}
-	case strings.HasPrefix(tok, "getelementptr") || strings.HasPrefix(tok, "bitcast") || strings.HasPrefix(tok, "@"):
-		// address of a global (string literals of assert messages, vtables):
-		// an opaque zero-filled object; the kernels compared never read them
-		o := &LObj{base: 1 << 20, cells: map[int]lcell{}, size: 64}
-		for k := 0; k < 64; k++ {
-			o.cells[k] = lcell{cInt(0, 8, false), 1}
+	case kSym:
+		v := m.cGlobal(mod, o.sym)
+		if pv, ok := v.(LPtr); ok {
+			pv.off += o.off
+			return pv
 		}
-		return LPtr{o, 0}
-	case tok == "true":
-		return cInt(1, 1, false)
-	case tok == "false":
-		return cInt(0, 1, false)
-	case tok == "undef":
-		return cInt(0, t.bits, false)
-	}
-	n, err := strconv.ParseInt(tok, 10, 64)
-	if err != nil {
-		u, err2 := strconv.ParseUint(tok, 10, 64)
-		if err2 != nil {
-			panic("C: operand " + tok)
+		return v
+	case kUndef, kZero:
+		if t == nil {
+			return cInt(0, 64, false)
 		}
-		n = int64(u)
+		switch t.kind {
+		case "ptr":
+			return LPtr{}
+		case "int":
+			return cInt(0, t.bits, false)
+		case "float":
+			return LF64(0)
+		case "struct":
+			a := make(LAgg, len(t.fields))
+			for i, ft := range t.fields {
+				a[i] = m.lval(mod, fr, ft, o)
+			}
+			return a
+		case "array":
+			a := make(LAgg, t.n)
+			for i := range a {
+				a[i] = m.lval(mod, fr, t.elem, o)
+			}
+			return a
+		}
+	case kFloat:
+		return LF64(o.f)
+	case kAgg:
+		a := make(LAgg, len(o.agg))
+		for i := range o.agg {
+			a[i] = m.lval(mod, fr, o.aggT[i], o.agg[i])
+		}
+		return a
 	}
-	return cInt(uint64(n), t.bits, false)
+	unsupported("C: unsupported operand %s", o.text)
+	return nil
 }
 
 func (m *Machine) boolOf(v interface{}) *Term { // i1 -> Bool
@@ -479,334 +1365,456 @@ func (m *Machine) cConc(v interface{}, what string) int {
 	return int(sext64(m.concretize(i.t, what), int(i.w)))
 }
 
+var lbinOps = map[string]Op{"add": opAdd, "sub": opSub, "mul": opMul, "and": opBAnd, "or": opBOr, "xor": opBXor, "shl": opShl, "lshr": opLshr, "ashr": opAshr, "udiv": opUdiv, "urem": opUrem, "sdiv": opSdiv, "srem": opSrem}
+
 func (m *Machine) CallC(mod *LModule, name string, args []interface{}) interface{} {
 	f := mod.funcs[name]
 	if f == nil {
-		unsupported("C: no function %s in the compiled kernels", name)
+		unsupported("C: no function %s in the compiled C sources", name)
 	}
 	m.funcs["C:"+name] = true
 	prevFn := m.cfn
 	m.cfn = name
-	defer func() { m.cfn = prevFn }()
-	fr := &lframe{env: map[string]interface{}{}}
-	for i, p := range f.params {
-		fr.env[p.name] = args[i]
+	m.cdepth++
+	if m.cdepth > 400 {
+		panic(targetPanic{kind: "hang", msg: "C: call depth exceeds 400", fn: "C:" + name, pos: "c"})
 	}
+	defer func() { m.cfn = prevFn; m.cdepth-- }()
+	if len(args) != len(f.params) {
+		unsupported("C: %s called with %d arguments, wants %d", name, len(args), len(f.params))
+	}
+	fr := &lframe{env: make([]interface{}, len(f.regs))}
+	for i, p := range f.params {
+		fr.env[p.reg] = args[i]
+	}
+	var allocas []*LObj
+	defer func() {
+		for _, o := range allocas {
+			o.freed = true
+			o.what = "stack object of " + name
+		}
+	}()
 	b := f.blocks[0]
 	for {
 		var next string
-		for _, in := range b.instrs {
-			m.steps++
-			if m.steps > m.eng.maxSteps {
-				panic(pathAbort{"cut: step budget"})
-			}
-			s := in.text
-			switch in.op {
-			case "alloca":
-				t, _ := mod.parseType(strings.TrimPrefix(s, "alloca "))
-				fr.env[in.res] = LPtr{newObj(t.size()), 0}
-			case "getelementptr":
-				s = strings.TrimPrefix(s, "getelementptr ")
-				s = strings.TrimPrefix(s, "inbounds ")
-				base, rest := mod.parseType(s)
-				rest = strings.TrimLeft(rest, ", ")
-				_, rest = mod.parseType(rest) // pointer type
-				ops := strings.Split(rest, ",")
-				p := m.lval(fr, nil, ops[0]).(LPtr)
-				cur := base
-				for k, o := range ops[1:] {
-					it, tok := mod.parseType(o)
-					idx := m.cConc(m.lval(fr, it, tok), "gep index")
-					if k == 0 {
-						p.off += idx * cur.size()
-						continue
-					}
-					switch cur.kind {
-					case "struct":
-						p.off += cur.fieldOff(idx)
-						cur = cur.fields[idx]
-					case "array":
-						p.off += idx * cur.elem.size()
-						cur = cur.elem
-					default:
-						panic("gep into " + cur.kind)
-					}
-				}
-				fr.env[in.res] = p
-			case "load":
-				s = strings.TrimPrefix(s, "load ")
-				t, rest := mod.parseType(s)
-				rest = strings.TrimLeft(rest, ", ")
-				_, tok := mod.parseType(rest)
-				tok = strings.Split(tok, ",")[0]
-				p := m.lval(fr, nil, tok).(LPtr)
-				fr.env[in.res] = m.lload(p, t.size(), t.kind == "ptr")
-			case "store":
-				s = strings.TrimPrefix(s, "store ")
-				t, rest := mod.parseType(s)
-				parts := strings.SplitN(rest, ",", 3)
-				v := m.lval(fr, t, parts[0])
-				_, ptok := mod.parseType(parts[1])
-				p := m.lval(fr, nil, ptok).(LPtr)
-				m.lstore(p, v, t.size())
-			case "trunc", "zext", "sext", "bitcast", "ptrtoint", "inttoptr":
-				s = strings.TrimPrefix(s, in.op+" ")
-				ft, rest := mod.parseType(s)
-				k := strings.Index(rest, " to ")
-				v := m.lval(fr, ft, rest[:k])
-				tt, _ := mod.parseType(rest[k+4:])
-				switch in.op {
-				case "bitcast":
-					fr.env[in.res] = v
-				case "trunc", "zext":
-					fr.env[in.res] = m.mk(m.ctx.Resize(m.term(v.(Int)), tt.bits, false), false)
-				case "sext":
-					fr.env[in.res] = m.mk(m.ctx.Resize(m.term(v.(Int)), tt.bits, true), false)
-				case "ptrtoint":
-					// only used for pointer differences / null tests of one object
-					pv := v.(LPtr)
-					if pv.obj == nil {
-						fr.env[in.res] = cInt(0, tt.bits, false)
-					} else {
-						fr.env[in.res] = cInt(uint64(pv.obj.base+pv.off), tt.bits, false)
-					}
-				default:
-					panic("C: " + in.op)
-				}
-			case "add", "sub", "mul", "and", "or", "xor", "shl", "lshr", "ashr", "udiv", "urem":
-				s = strings.TrimPrefix(s, in.op+" ")
-				for _, fl := range []string{"nuw ", "nsw ", "exact "} {
-					s = strings.ReplaceAll(s, fl, "")
-				}
-				t, rest := mod.parseType(s)
-				ops := strings.Split(rest, ",")
-				x, y := m.lval(fr, t, ops[0]).(Int), m.lval(fr, t, ops[1]).(Int)
-				op, ok := map[string]Op{"add": opAdd, "sub": opSub, "mul": opMul, "and": opBAnd, "or": opBOr, "xor": opBXor, "shl": opShl, "lshr": opLshr, "ashr": opAshr, "udiv": opUdiv, "urem": opUrem}[in.op]
-				if !ok {
-					panic("C: " + in.op)
-				}
-				if (in.op == "udiv" || in.op == "urem") && !(y.t == nil && y.c != 0) {
-					panic(pathAbort{"cut: C division by a symbolic value"})
-				}
-				if x.t == nil && y.t == nil {
-					r, _ := foldBin(op, t.bits, x.c, y.c)
-					fr.env[in.res] = cInt(r, t.bits, false)
-				} else if op == opUdiv || op == opUrem {
-					fr.env[in.res] = m.mk(m.ctx.intern(&Term{op: op, args: []*Term{m.term(x), m.term(y)}, w: t.bits}), false)
-				} else {
-					fr.env[in.res] = m.mk(m.ctx.Bin(op, m.term(x), m.term(y)), false)
-				}
-			case "icmp":
-				f := strings.Fields(s)
-				pred := f[1]
-				s = strings.Join(f[2:], " ")
-				t, rest := mod.parseType(s)
-				ops := strings.Split(rest, ",")
-				xv, yv := m.lval(fr, t, ops[0]), m.lval(fr, t, ops[1])
-				if t.kind == "ptr" {
-					px, py := xv.(LPtr), yv.(LPtr)
-					eq := px.obj == py.obj && px.off == py.off
-					if pred == "ne" {
-						eq = !eq
-					}
-					fr.env[in.res] = m.i1(m.ctx.Bool(eq))
-					break
-				}
-				x, y := m.term(xv.(Int)), m.term(yv.(Int))
-				c := m.ctx
-				var r *Term
-				switch pred {
-				case "eq":
-					r = c.Cmp(opEq, x, y)
-				case "ne":
-					r = c.Not(c.Cmp(opEq, x, y))
-				case "ult":
-					r = c.Cmp(opUlt, x, y)
-				case "ule":
-					r = c.Cmp(opUle, x, y)
-				case "ugt":
-					r = c.Cmp(opUlt, y, x)
-				case "uge":
-					r = c.Cmp(opUle, y, x)
-				case "slt":
-					r = c.Cmp(opSlt, x, y)
-				case "sle":
-					r = c.Cmp(opSle, x, y)
-				case "sgt":
-					r = c.Cmp(opSlt, y, x)
-				case "sge":
-					r = c.Cmp(opSle, y, x)
-				default:
-					panic("C: icmp " + pred)
-				}
-				fr.env[in.res] = m.i1(r)
-			case "select":
-				s = strings.TrimPrefix(s, "select ")
-				parts := strings.SplitN(s, ",", 3)
-				ct, ctok := mod.parseType(parts[0])
-				c := m.lval(fr, ct, ctok)
-				t1, tok1 := mod.parseType(parts[1])
-				t2, tok2 := mod.parseType(parts[2])
-				a, b2 := m.lval(fr, t1, tok1), m.lval(fr, t2, tok2)
-				if ai, ok := a.(Int); ok {
-					fr.env[in.res] = m.mk(m.ctx.Ite(m.boolOf(c), m.term(ai), m.term(b2.(Int))), false)
-				} else if m.branch(m.boolOf(c)) {
-					fr.env[in.res] = a
-				} else {
-					fr.env[in.res] = b2
-				}
-			case "phi":
-				s = strings.TrimPrefix(s, "phi ")
-				t, rest := mod.parseType(s)
+		// phis read their inputs simultaneously
+		if b.nphi > 0 {
+			vals := make([]interface{}, b.nphi)
+			for i := 0; i < b.nphi; i++ {
+				in := b.instrs[i]
 				found := false
-				for _, mm := range regexp.MustCompile(`\[\s*([^,\]]+),\s*%([\w.]+)\s*\]`).FindAllStringSubmatch(rest, -1) {
-					if mm[2] == fr.prev {
-						fr.env[in.res] = m.lval(fr, t, mm[1])
+				for _, ph := range in.phi {
+					if ph.blk == fr.prev {
+						vals[i] = m.lval(mod, fr, in.t, ph.v)
 						found = true
+						break
 					}
 				}
 				if !found {
 					unsupported("C: phi without edge from %s: %s", fr.prev, in.text)
 				}
-			case "br":
-				f := strings.Fields(strings.ReplaceAll(s, ",", " "))
-				if f[1] == "label" {
-					next = strings.TrimPrefix(f[2], "%")
-				} else {
-					c := m.lval(fr, &LType{kind: "int", bits: 1}, f[2])
-					if m.branch(m.boolOf(c)) {
-						next = strings.TrimPrefix(f[4], "%")
-					} else {
-						next = strings.TrimPrefix(f[6], "%")
+			}
+			for i := 0; i < b.nphi; i++ {
+				fr.env[b.instrs[i].res] = vals[i]
+			}
+		}
+		for _, in := range b.instrs[b.nphi:] {
+			m.steps++
+			if m.steps > m.eng.maxSteps && m.steps > m.maxSteps {
+				panic(pathAbort{"cut: step budget"})
+			}
+			var r interface{}
+			switch in.op {
+			case "alloca":
+				n := m.cConc(m.lval(mod, fr, nil, in.a[0]), "alloca count")
+				o := m.cAlloc(in.t.size() * n)
+				o.what = "alloca in " + name
+				allocas = append(allocas, o)
+				r = LPtr{o, 0}
+			case "getelementptr":
+				pv, ok := m.lval(mod, fr, in.at[0], in.a[0]).(LPtr)
+				if !ok {
+					unsupported("C: getelementptr on a non-pointer: %s", in.text)
+				}
+				cur := in.t
+				for k := 1; k < len(in.a); k++ {
+					idx := m.cConc(m.lval(mod, fr, in.at[k], in.a[k]), "gep index")
+					if k == 1 {
+						pv.off += idx * cur.size()
+						continue
+					}
+					switch cur.kind {
+					case "struct":
+						pv.off += cur.fieldOff(idx)
+						cur = cur.fields[idx]
+					case "array":
+						pv.off += idx * cur.elem.size()
+						cur = cur.elem
+					default:
+						unsupported("C: gep into %s", cur.kind)
 					}
 				}
+				r = pv
+			case "load":
+				pv, ok := m.lval(mod, fr, nil, in.a[0]).(LPtr)
+				if !ok {
+					unsupported("C: load through a non-pointer: %s", in.text)
+				}
+				switch in.t.kind {
+				case "struct", "array":
+					unsupported("C: aggregate load: %s", in.text)
+				case "float":
+					m.ccheck(pv, 8, "load")
+					c, ok := pv.obj.cells[pv.off]
+					if !ok {
+						unsupported("C: float load of non-float memory")
+					}
+					r = c.v
+				default:
+					r = m.lload(pv, in.t.size(), in.t.kind == "ptr")
+				}
+			case "store":
+				v := m.lval(mod, fr, in.t, in.a[0])
+				pv, ok := m.lval(mod, fr, nil, in.a[1]).(LPtr)
+				if !ok {
+					unsupported("C: store through a non-pointer: %s", in.text)
+				}
+				if _, isAgg := v.(LAgg); isAgg {
+					unsupported("C: aggregate store: %s", in.text)
+				}
+				m.lstore(pv, v, in.t.size())
+			case "bitcast", "freeze":
+				r = m.lval(mod, fr, in.t, in.a[0])
+			case "trunc", "zext":
+				r = m.mk(m.ctx.Resize(m.term(m.lval(mod, fr, in.t, in.a[0]).(Int)), in.t2.bits, false), false)
+			case "sext":
+				r = m.mk(m.ctx.Resize(m.term(m.lval(mod, fr, in.t, in.a[0]).(Int)), in.t2.bits, true), false)
+			case "ptrtoint":
+				r = m.intOfPtr(m.lval(mod, fr, in.t, in.a[0]), in.t2.bits)
+			case "inttoptr":
+				iv := m.lval(mod, fr, in.t, in.a[0]).(Int)
+				if iv.t != nil {
+					unsupported("C: inttoptr of a symbolic value")
+				}
+				r = m.ptrOfInt(iv.c)
+			case "uitofp", "sitofp":
+				iv := m.lval(mod, fr, in.t, in.a[0]).(Int)
+				if iv.t != nil {
+					unsupported("C: floating point conversion of a symbolic value")
+				}
+				if in.op == "sitofp" {
+					r = LF64(float64(sext64(iv.c, in.t.bits)))
+				} else {
+					r = LF64(float64(iv.c))
+				}
+			case "fptoui", "fptosi":
+				fv := m.lval(mod, fr, in.t, in.a[0]).(LF64)
+				if in.op == "fptosi" {
+					r = cInt(uint64(int64(fv)), in.t2.bits, false)
+				} else {
+					r = cInt(uint64(fv), in.t2.bits, false)
+				}
+			case "fpext", "fptrunc":
+				r = m.lval(mod, fr, in.t, in.a[0])
+			case "add", "sub", "mul", "and", "or", "xor", "shl", "lshr", "ashr", "udiv", "urem", "sdiv", "srem":
+				xv, yv := m.lval(mod, fr, in.t, in.a[0]), m.lval(mod, fr, in.t, in.a[1])
+				x, y := m.intOfPtr(xv, in.t.bits), m.intOfPtr(yv, in.t.bits)
+				op := lbinOps[in.op]
+				isDiv := op == opUdiv || op == opUrem || op == opSdiv || op == opSrem
+				if isDiv && !(y.t == nil && y.c != 0) {
+					if y.t == nil {
+						m.cpanic("divide", "division by zero")
+					}
+					panic(pathAbort{"cut: C division by a symbolic value"})
+				}
+				if x.t == nil && y.t == nil {
+					v, ok := foldBin(op, in.t.bits, x.c, y.c)
+					if !ok {
+						unsupported("C: cannot fold %s", in.text)
+					}
+					r = cInt(v, in.t.bits, false)
+				} else if isDiv {
+					r = m.mk(m.ctx.intern(&Term{op: op, args: []*Term{m.term(x), m.term(y)}, w: in.t.bits}), false)
+				} else {
+					r = m.mk(m.ctx.Bin(op, m.term(x), m.term(y)), false)
+				}
+			case "icmp":
+				xv, yv := m.lval(mod, fr, in.t, in.a[0]), m.lval(mod, fr, in.t, in.a[1])
+				if in.t.kind == "ptr" {
+					xf, xIsFn := xv.(LFn)
+					yf, yIsFn := yv.(LFn)
+					if xIsFn || yIsFn {
+						eq := xIsFn && yIsFn && xf.name == yf.name
+						if in.pred == "ne" {
+							eq = !eq
+						} else if in.pred != "eq" {
+							unsupported("C: ordered comparison of function pointers")
+						}
+						r = m.i1(m.ctx.Bool(eq))
+						break
+					}
+					xv, yv = m.intOfPtr(xv, 64), m.intOfPtr(yv, 64)
+				}
+				x, y := m.term(xv.(Int)), m.term(yv.(Int))
+				c := m.ctx
+				var t *Term
+				switch in.pred {
+				case "eq":
+					t = c.Cmp(opEq, x, y)
+				case "ne":
+					t = c.Not(c.Cmp(opEq, x, y))
+				case "ult":
+					t = c.Cmp(opUlt, x, y)
+				case "ule":
+					t = c.Cmp(opUle, x, y)
+				case "ugt":
+					t = c.Cmp(opUlt, y, x)
+				case "uge":
+					t = c.Cmp(opUle, y, x)
+				case "slt":
+					t = c.Cmp(opSlt, x, y)
+				case "sle":
+					t = c.Cmp(opSle, x, y)
+				case "sgt":
+					t = c.Cmp(opSlt, y, x)
+				case "sge":
+					t = c.Cmp(opSle, y, x)
+				default:
+					unsupported("C: icmp %s", in.pred)
+				}
+				r = m.i1(t)
+			case "select":
+				c := m.lval(mod, fr, nil, in.a[0])
+				a, b2 := m.lval(mod, fr, in.t, in.a[1]), m.lval(mod, fr, in.t, in.a[2])
+				ai, aok := a.(Int)
+				bi, bok := b2.(Int)
+				if aok && bok {
+					r = m.mk(m.ctx.Ite(m.boolOf(c), m.term(ai), m.term(bi)), false)
+				} else if m.branch(m.boolOf(c)) {
+					r = a
+				} else {
+					r = b2
+				}
+			case "br":
+				if len(in.lbl) == 1 {
+					next = in.lbl[0]
+				} else if m.branch(m.boolOf(m.lval(mod, fr, nil, in.a[0]))) {
+					next = in.lbl[0]
+				} else {
+					next = in.lbl[1]
+				}
 			case "switch":
-				// switch iN %v, label %default [ iN c1, label %l1 ... ]
-				hd := s[len("switch "):strings.Index(s, "[")]
-				t, rest := mod.parseType(hd)
-				parts := strings.Split(rest, ",")
-				v := m.lval(fr, t, parts[0]).(Int)
-				next = strings.TrimPrefix(strings.TrimSpace(strings.TrimPrefix(strings.TrimSpace(parts[1]), "label")), "%")
-				body := s[strings.Index(s, "[")+1 : strings.LastIndex(s, "]")]
-				for _, mm := range regexp.MustCompile(`i\d+\s+(-?\d+),\s*label\s+%([\w.]+)`).FindAllStringSubmatch(body, -1) {
-					cv, _ := strconv.ParseInt(mm[1], 10, 64)
-					eq := m.ctx.Cmp(opEq, m.term(v), m.ctx.BV(t.bits, uint64(cv)))
-					if m.branch(eq) {
-						next = mm[2]
+				v := m.lval(mod, fr, in.t, in.a[0]).(Int)
+				next = in.lbl[0]
+				for k, cv := range in.cases {
+					if v.t == nil {
+						if v.c == cv&mask(in.t.bits) {
+							next = in.lbl[k+1]
+							break
+						}
+						continue
+					}
+					if m.branch(m.ctx.Cmp(opEq, m.term(v), m.ctx.BV(in.t.bits, cv))) {
+						next = in.lbl[k+1]
 						break
 					}
 				}
 			case "ret":
-				s = strings.TrimPrefix(s, "ret ")
-				if strings.HasPrefix(s, "void") {
+				if len(in.a) == 0 {
 					return nil
 				}
-				t, tok := mod.parseType(s)
-				return m.lval(fr, t, tok)
+				return m.lval(mod, fr, in.t, in.a[0])
+			case "extractvalue":
+				v := m.lval(mod, fr, in.t, in.a[0])
+				for _, ix := range in.idx {
+					v = v.(LAgg)[ix]
+				}
+				r = v
+			case "insertvalue":
+				agg := m.lval(mod, fr, in.t, in.a[0]).(LAgg)
+				v := m.lval(mod, fr, in.t2, in.a[1])
+				r = m.insertAgg(agg, in.idx, v)
 			case "call":
-				mm := regexp.MustCompile(`@([\w.]+)\((.*)\)[^()]*$`).FindStringSubmatch(s)
-				if mm == nil {
-					panic("C: indirect call " + s)
-				}
-				var cargs []interface{}
-				for _, a := range splitTop(mm[2]) {
-					if strings.TrimSpace(a) == "" {
-						continue
-					}
-					t, rest := mod.parseType(a)
-					cargs = append(cargs, m.lval(fr, t, stripAttrs(rest)))
-				}
-				var r interface{}
-				switch {
-				case strings.HasPrefix(mm[1], "llvm.lifetime"):
-				case strings.HasPrefix(mm[1], "llvm.memset"):
-					p := cargs[0].(LPtr)
-					n := m.cConc(cargs[2], "memset size")
-					for k := 0; k < n; k++ {
-						m.lstore(LPtr{p.obj, p.off + k}, cargs[1].(Int), 1)
-					}
-				case strings.HasPrefix(mm[1], "llvm.memcpy"), strings.HasPrefix(mm[1], "llvm.memmove"), mm[1] == "memcpy", mm[1] == "memmove":
-					d, sp := cargs[0].(LPtr), cargs[1].(LPtr)
-					n := m.cConc(cargs[2], "memcpy size")
-					if n > 0 && sp.obj == d.obj && d.off > sp.off && d.off < sp.off+n {
-						for k := n - 1; k >= 0; k-- {
-							m.lstore(LPtr{d.obj, d.off + k}, m.lload(LPtr{sp.obj, sp.off + k}, 1, false), 1)
-						}
-					} else {
-						for k := 0; k < n; k++ {
-							m.lstore(LPtr{d.obj, d.off + k}, m.lload(LPtr{sp.obj, sp.off + k}, 1, false), 1)
-						}
-					}
-					r = d
-				case mm[1] == "abort" || mm[1] == "__assert_fail":
-					m.cpanic("explicit", "abort/assert")
-				default:
-					if lr, ok := m.libc(mm[1], cargs); ok {
-						r = lr
-					} else {
-						r = m.CallC(mod, mm[1], cargs)
-					}
-				}
-				if in.res != "" {
-					fr.env[in.res] = r
-				}
+				r = m.ccall(mod, fr, in)
 			case "unreachable":
 				m.cpanic("explicit", "unreachable")
 			default:
-				unsupported("C: unsupported instruction: %s", in.text)
+				unsupported("C: unsupported instruction in %s: %s", name, in.text)
+			}
+			if in.res >= 0 {
+				fr.env[in.res] = r
+			}
+			if next != "" {
+				break
 			}
 		}
+		if next == "" {
+			unsupported("C: block %s of %s falls through", b.name, name)
+		}
 		fr.prev = b.name
-		b = f.blocks[f.bidx[next]]
+		bi, ok := f.bidx[next]
+		if !ok {
+			unsupported("C: no block %s in %s", next, name)
+		}
+		b = f.blocks[bi]
 	}
 }
 
-// libc models the few library calls the kernels make.
+func (m *Machine) insertAgg(a LAgg, idx []int, v interface{}) LAgg {
+	n := make(LAgg, len(a))
+	copy(n, a)
+	if len(idx) == 1 {
+		n[idx[0]] = v
+	} else {
+		n[idx[0]] = m.insertAgg(a[idx[0]].(LAgg), idx[1:], v)
+	}
+	return n
+}
+
+func (m *Machine) ccall(mod *LModule, fr *lframe, in *LInstr) interface{} {
+	callee := in.callee
+	first := 0
+	if callee == "" {
+		fv := m.lval(mod, fr, nil, in.a[0])
+		fn, ok := fv.(LFn)
+		if !ok {
+			if pv, isPtr := fv.(LPtr); isPtr && pv.obj == nil {
+				m.cpanic("nil", "call through a NULL function pointer")
+			}
+			unsupported("C: indirect call through a non-function value: %s", in.text)
+		}
+		callee = fn.name
+		first = 1
+	}
+	cargs := make([]interface{}, 0, len(in.a)-first)
+	for k := first; k < len(in.a); k++ {
+		v := m.lval(mod, fr, in.at[k-first+firstAt(in)], in.a[k])
+		if bv := in.byval[k-first+firstAt(in)]; bv > 0 {
+			src := v.(LPtr)
+			o := m.cAlloc(bv)
+			o.what = "byval copy"
+			m.cmemcpy(LPtr{o, 0}, src, bv)
+			v = LPtr{o, 0}
+		}
+		cargs = append(cargs, v)
+	}
+	switch {
+	case strings.HasPrefix(callee, "llvm.lifetime"), strings.HasPrefix(callee, "llvm.dbg"), callee == "llvm.assume", strings.HasPrefix(callee, "llvm.experimental.noalias"):
+		return nil
+	case strings.HasPrefix(callee, "llvm.memset"), callee == "memset":
+		p := cargs[0].(LPtr)
+		n := m.cConc(cargs[2], "memset size")
+		if n > 0 {
+			m.ccheck(p, n, "memset")
+			m.clearRange(p.obj, p.off, n)
+			bv := cargs[1].(Int)
+			bv = m.mk(m.ctx.Resize(m.term(bv), 8, false), false)
+			for k := 0; k < n; k++ {
+				p.obj.cells[p.off+k] = lcell{bv, 1}
+			}
+		}
+		return p
+	case strings.HasPrefix(callee, "llvm.memcpy"), strings.HasPrefix(callee, "llvm.memmove"), callee == "memcpy", callee == "memmove":
+		d, sp := cargs[0].(LPtr), cargs[1].(LPtr)
+		n := m.cConc(cargs[2], "memcpy size")
+		m.cmemcpy(d, sp, n)
+		return d
+	case strings.HasPrefix(callee, "llvm.fmuladd"):
+		return LF64(float64(cargs[0].(LF64))*float64(cargs[1].(LF64)) + float64(cargs[2].(LF64)))
+	case strings.HasPrefix(callee, "llvm.umax"), strings.HasPrefix(callee, "llvm.umin"), strings.HasPrefix(callee, "llvm.smax"), strings.HasPrefix(callee, "llvm.smin"):
+		x, y := m.term(cargs[0].(Int)), m.term(cargs[1].(Int))
+		var c *Term
+		switch callee[5:9] {
+		case "umax":
+			c = m.ctx.Cmp(opUlt, y, x)
+		case "umin":
+			c = m.ctx.Cmp(opUlt, x, y)
+		case "smax":
+			c = m.ctx.Cmp(opSlt, y, x)
+		default:
+			c = m.ctx.Cmp(opSlt, x, y)
+		}
+		return m.mk(m.ctx.Ite(c, x, y), false)
+	case callee == "abort" || callee == "__assert_fail":
+		m.cpanic("explicit", "abort/assert")
+	}
+	if lr, ok := m.libc(callee, cargs); ok {
+		return lr
+	}
+	if mod.funcs[callee] == nil {
+		unsupported("C: call of unmodelled external function %s", callee)
+	}
+	return m.CallC(mod, callee, cargs)
+}
+
+func firstAt(in *LInstr) int {
+	if in.callee == "" {
+		return 1
+	}
+	return 0
+}
+
+// ---------- libc / zlib models ----------
+
+func (m *Machine) cbyte(p LPtr, k int) Int {
+	return m.lload(LPtr{p.obj, p.off + k}, 1, false).(Int)
+}
+
 func (m *Machine) libc(name string, args []interface{}) (interface{}, bool) {
 	switch name {
-	case "malloc", "reftable_malloc":
-		n := m.cConc(args[0], "malloc size")
+	case "malloc", "calloc", "realloc":
+		var n int
+		var old LPtr
+		switch name {
+		case "malloc":
+			n = m.cConc(args[0], "malloc size")
+		case "calloc":
+			n = m.cConc(args[0], "calloc size") * m.cConc(args[1], "calloc size")
+		default:
+			old = args[0].(LPtr)
+			n = m.cConc(args[1], "realloc size")
+		}
 		if n < 0 || n > 1<<24 {
-			m.cpanic("alloc", "malloc of an input-driven size")
+			m.cpanic("alloc", name+" of an input-driven size")
 		}
-		m.cheap += 1 << 26
-		return LPtr{&LObj{base: m.cheap, cells: map[int]lcell{}, size: n}, 0}, true
-	case "calloc", "reftable_calloc":
-		n := m.cConc(args[0], "calloc size")
-		if len(args) > 1 && name == "calloc" {
-			n *= m.cConc(args[1], "calloc size")
+		o := m.cAlloc(n)
+		o.what = name
+		if name == "calloc" {
+			m.cZero(o, 0, n)
 		}
-		if n < 0 || n > 1<<24 {
-			m.cpanic("alloc", "calloc of an input-driven size")
-		}
-		m.cheap += 1 << 26
-		o := &LObj{base: m.cheap, cells: map[int]lcell{}, size: n}
-		for k := 0; k < n; k++ {
-			o.cells[k] = lcell{cInt(0, 8, false), 1}
-		}
-		return LPtr{o, 0}, true
-	case "realloc", "reftable_realloc":
-		p := args[0].(LPtr)
-		n := m.cConc(args[1], "realloc size")
-		if n < 0 || n > 1<<24 {
-			m.cpanic("alloc", "realloc of an input-driven size")
-		}
-		m.cheap += 1 << 26
-		o := &LObj{base: m.cheap, cells: map[int]lcell{}, size: n}
-		if p.obj != nil {
-			for k, c := range p.obj.cells {
+		if old.obj != nil {
+			if old.off != 0 {
+				m.cpanic("uaf", "realloc of an interior pointer")
+			}
+			if old.obj.freed {
+				m.cpanic("uaf", "realloc of freed memory")
+			}
+			for k, c := range old.obj.cells {
 				if k+c.size <= n {
 					o.cells[k] = c
 				}
 			}
+			old.obj.freed = true
+			old.obj.what = "block released by realloc"
 		}
 		return LPtr{o, 0}, true
-	case "free", "reftable_free":
+	case "free":
+		p := args[0].(LPtr)
+		if p.obj != nil {
+			if p.obj.freed {
+				m.cpanic("uaf", "double free ("+p.obj.what+")")
+			}
+			if p.off != 0 {
+				m.cpanic("uaf", "free of an interior pointer")
+			}
+			p.obj.freed = true
+			p.obj.what = "freed block"
+		}
 		return nil, true
 	case "strlen":
 		p := args[0].(LPtr)
 		for k := 0; ; k++ {
-			c := m.lload(LPtr{p.obj, p.off + k}, 1, false).(Int)
+			c := m.cbyte(p, k)
 			if c.t == nil {
 				if c.c == 0 {
 					return cInt(uint64(k), 64, false), true
@@ -821,8 +1829,7 @@ func (m *Machine) libc(name string, args []interface{}) (interface{}, bool) {
 		a, b := args[0].(LPtr), args[1].(LPtr)
 		n := m.cConc(args[2], "memcmp size")
 		for k := 0; k < n; k++ {
-			x := m.lload(LPtr{a.obj, a.off + k}, 1, false).(Int)
-			y := m.lload(LPtr{b.obj, b.off + k}, 1, false).(Int)
+			x, y := m.cbyte(a, k), m.cbyte(b, k)
 			if m.branch(m.ctx.Not(m.ctx.Cmp(opEq, m.term(x), m.term(y)))) {
 				if m.branch(m.ctx.Cmp(opUlt, m.term(x), m.term(y))) {
 					return cInt(^uint64(0), 32, false), true
@@ -831,8 +1838,137 @@ func (m *Machine) libc(name string, args []interface{}) (interface{}, bool) {
 			}
 		}
 		return cInt(0, 32, false), true
+	case "bcmp":
+		a, b := args[0].(LPtr), args[1].(LPtr)
+		n := m.cConc(args[2], "bcmp size")
+		diff := m.ctx.Bool(false)
+		for k := 0; k < n; k++ {
+			x, y := m.cbyte(a, k), m.cbyte(b, k)
+			diff = m.ctx.Or(diff, m.ctx.Not(m.ctx.Cmp(opEq, m.term(x), m.term(y))))
+		}
+		return m.mk(m.ctx.Ite(diff, m.ctx.BV(32, 1), m.ctx.BV(32, 0)), false), true
+	case "strcmp", "strncmp":
+		a, b := args[0].(LPtr), args[1].(LPtr)
+		lim := 1 << 30
+		if name == "strncmp" {
+			lim = m.cConc(args[2], "strncmp size")
+		}
+		for k := 0; k < lim; k++ {
+			x, y := m.cbyte(a, k), m.cbyte(b, k)
+			if m.branch(m.ctx.Not(m.ctx.Cmp(opEq, m.term(x), m.term(y)))) {
+				if m.branch(m.ctx.Cmp(opUlt, m.term(x), m.term(y))) {
+					return cInt(^uint64(0), 32, false), true
+				}
+				return cInt(1, 32, false), true
+			}
+			if m.branch(m.ctx.Cmp(opEq, m.term(x), m.ctx.BV(8, 0))) {
+				break
+			}
+		}
+		return cInt(0, 32, false), true
+	case "strncpy":
+		d, sp := args[0].(LPtr), args[1].(LPtr)
+		n := m.cConc(args[2], "strncpy size")
+		done := false
+		for k := 0; k < n; k++ {
+			if done {
+				m.lstore(LPtr{d.obj, d.off + k}, cInt(0, 8, false), 1)
+				continue
+			}
+			c := m.cbyte(sp, k)
+			m.lstore(LPtr{d.obj, d.off + k}, c, 1)
+			if m.branch(m.ctx.Cmp(opEq, m.term(c), m.ctx.BV(8, 0))) {
+				done = true
+			}
+		}
+		return d, true
+	case "strchr":
+		p := args[0].(LPtr)
+		ch := m.mk(m.ctx.Resize(m.term(args[1].(Int)), 8, false), false)
+		for k := 0; ; k++ {
+			c := m.cbyte(p, k)
+			if m.branch(m.ctx.Cmp(opEq, m.term(c), m.term(ch))) {
+				return LPtr{p.obj, p.off + k}, true
+			}
+			if m.branch(m.ctx.Cmp(opEq, m.term(c), m.ctx.BV(8, 0))) {
+				return LPtr{}, true
+			}
+		}
+	case "crc32":
+		// zlib crc32(crc, buf, len) with crc == 0: the IEEE checksum the Go side uses
+		iv := args[0].(Int)
+		if iv.t != nil || iv.c != 0 {
+			unsupported("C: crc32 continued from a non-zero value")
+		}
+		p := args[1].(LPtr)
+		n := m.cConc(args[2], "crc32 length")
+		arr := newByteArray(n)
+		for k := 0; k < n; k++ {
+			arr.set(k, m.cbyte(p, k))
+		}
+		v := m.crcOf(arr, 0, n).(Int)
+		return m.mk(m.ctx.Resize(m.term(v), 64, false), false), true
+	case "compress2":
+		return m.cCompress(args), true
+	case "uncompress2":
+		return m.cUncompress(args), true
 	}
 	return nil, false
 }
 
-var _ = token.NoPos
+// cCompress models zlib compress2(dest, *destLen, src, srcLen, level) with the
+// deflate model of zlib.go (contract: lossless; real zlib on concrete bytes).
+func (m *Machine) cCompress(args []interface{}) interface{} {
+	dst, dlenp, src := args[0].(LPtr), args[1].(LPtr), args[2].(LPtr)
+	n := m.cConc(args[3], "compress2 length")
+	data := newByteArray(n)
+	for k := 0; k < n; k++ {
+		data.set(k, m.cbyte(src, k))
+	}
+	stream := deflateModel(data, n)
+	capv := m.cConc(m.lload(dlenp, 8, false), "compress2 capacity")
+	sz := stream.size()
+	if sz > capv {
+		return cInt(uint64(0xfffffffb), 32, false) // Z_BUF_ERROR
+	}
+	for k := 0; k < sz; k++ {
+		m.lstore(LPtr{dst.obj, dst.off + k}, stream.get(k).(Int), 1)
+	}
+	m.lstore(dlenp, cInt(uint64(sz), 64, false), 8)
+	return cInt(0, 32, false)
+}
+
+type cByteSrc struct {
+	m   *Machine
+	p   LPtr
+	n   int
+	pos int
+}
+
+// cUncompress models zlib uncompress2(dest, *destLen, src, *srcLen).
+func (m *Machine) cUncompress(args []interface{}) interface{} {
+	dst, dlenp, src, slenp := args[0].(LPtr), args[1].(LPtr), args[2].(LPtr), args[3].(LPtr)
+	capv := m.cConc(m.lload(dlenp, 8, false), "uncompress2 capacity")
+	slen := m.cConc(m.lload(slenp, 8, false), "uncompress2 source length")
+	in := newByteArray(slen)
+	for k := 0; k < slen; k++ {
+		in.set(k, m.cbyte(src, k))
+	}
+	out, used, errs := inflateModel(in, slen)
+	if errs != "" {
+		if errs == "unexpected EOF" {
+			return cInt(uint64(0xfffffffb), 32, false) // Z_BUF_ERROR
+		}
+		return cInt(uint64(0xfffffffd), 32, false) // Z_DATA_ERROR
+	}
+	n := out.size()
+	if n > capv {
+		return cInt(uint64(0xfffffffb), 32, false)
+	}
+	for k := 0; k < n; k++ {
+		m.lstore(LPtr{dst.obj, dst.off + k}, out.get(k).(Int), 1)
+	}
+	m.lstore(dlenp, cInt(uint64(n), 64, false), 8)
+	m.lstore(slenp, cInt(uint64(used), 64, false), 8)
+	return cInt(0, 32, false)
+}
